@@ -637,6 +637,196 @@ def run_sched(chk, plans, stats):
                                       {"suite": "sched", "plan": plans[n], "points": SCHED_POINTS})
 
 
+# --------------------------------------------------------------------------
+# suite "sched2": the Junk move and UID COPY held before the statements around
+# their BEGIN while a SEQUENCE of other complete writers runs on the destination
+
+SPAM_SEQS = {
+    # the seeded C03-4 schedule: two deliveries allocate UIDs 3 and 4 in Spam, another session expunges UID 3
+    "deliver,deliver,expunge3": [("deliver_spam",), ("deliver_spam",), ("expunge", 3)],
+    "append,uidcopy,expunge4": [("append_spam",), ("uidcopy_spam", 1), ("expunge", 4)],
+    "junkmove,deliver": [("junk_move", 2), ("deliver_spam",)],
+}
+HOLDERS2 = {"move": "UID STORE 1 +FLAGS (Junk)", "uidcopy": "UID COPY 1:2 Spam"}
+SLOTS2 = ["before_lookup", "before_begin", "first_tx_statement"]     # positions iB-1, iB, iB+1 around BEGIN
+
+
+def other2(spec, j):
+    kind = spec[0]
+    if kind == "deliver_spam":
+        return ([{"conn": "l0", "steps": [{"data": "MAIL FROM:<a@example.com>\r\n", "until": "lmtp:1"},
+                                          {"data": "RCPT TO:<%s>\r\n" % USER, "until": "lmtp:1"},
+                                          {"data": "DATA\r\n", "until": "lmtp:1"},
+                                          {"data": "X-Spam-Status: Yes, score=9\r\n" + sched_msg(300 + j) + ".\r\n", "until": "lmtp:1"}]}],
+                ["(ODeliver SPAM 0)"])
+    if kind == "append_spam":
+        return ([{"conn": "c2", "steps": sched_append_steps("o%d" % j, "Spam", 400 + j)}], ["(OAppend SPAM [])"])
+    if kind == "uidcopy_spam":
+        return ([{"conn": "c2", "steps": [{"data": "o%d UID COPY %d Spam\r\n" % (j, spec[1]), "until": "tag:o%d" % j}]}],
+                ["(OUidCopy 4 [(UOne %d)] SPAM)" % spec[1]])
+    if kind == "junk_move":
+        return ([{"conn": "c2", "steps": [{"data": "o%d UID STORE %d +FLAGS (Junk)\r\n" % (j, spec[1]), "until": "tag:o%d" % j}]}],
+                ["(OUidStore 4 [(UOne %d)] SAdd [JUNK])" % spec[1]])
+    if kind == "expunge":
+        return ([{"conn": "c3", "steps": [{"data": "o%d UID STORE %d +FLAGS (\\Deleted)\r\n" % (j, spec[1]), "until": "tag:o%d" % j},
+                                          {"data": "x%d EXPUNGE\r\n" % j, "until": "tag:x%d" % j}]}],
+                ["(OUidStore 5 [(UOne %d)] SAdd [(S_ \"\\Deleted\")])" % spec[1], "(OExpunge 5)"])
+    raise ValueError(kind)
+
+
+def sched2_prefix():
+    ops = []
+    for c in ("c1", "c2", "c3"):
+        ops += [{"op": "open", "conn": c}, {"op": "send", "conn": c, "data": "i%s LOGIN %s pw\r\n" % (c, USER), "until": "tag:i" + c}]
+    ops += [{"op": "lmtp_open", "conn": "l0"}, {"op": "send", "conn": "l0", "data": "LHLO x\r\n", "until": "lmtp:1"}]
+    n = 0
+    for folder, conn, cnt in (("INBOX", "c1", 2), ("Trash", "c2", 4), ("Spam", "c2", 2)):
+        for _ in range(cnt):
+            for st in sched_append_steps("p%d" % n, folder, 10 + n):
+                ops.append(dict(st, op="send", conn=conn))
+            n += 1
+    ops += [{"op": "send", "conn": "c1", "data": "s1 SELECT INBOX\r\n", "until": "tag:s1"},
+            {"op": "send", "conn": "c2", "data": "s2 SELECT Trash\r\n", "until": "tag:s2"},
+            {"op": "send", "conn": "c3", "data": "s3 SELECT Spam\r\n", "until": "tag:s3"},
+            {"op": "dump"},
+            {"op": "c03_gate_install", "user": USER}]
+    return ops
+
+
+def sched2_ops(holder, at, seq):
+    ops = sched2_prefix()
+    others, mops = [], []
+    for j, spec in enumerate(seq):
+        ths, mo = other2(spec, j)
+        others += ths
+        mops += mo
+    ops.append({"op": "c03_hold", "dumps": True, "timeout_ms": 10000,
+                "holder": {"conn": "c1", "steps": [{"data": "h1 %s\r\n" % HOLDERS2[holder], "until": "tag:h1"}]},
+                "others": others, "holds": ([{"at": at, "run": list(range(len(others)))}] if at is not None else [])})
+    ops.append({"op": "dump"})
+    return ops, mops
+
+
+class GhostLog:
+    """Observation-only log of ever-assigned (mailbox name, UIDVALIDITY, UID) -> message instance
+    over a series of dumps of the user's store; returns the violations each new dump shows."""
+
+    def __init__(self):
+        self.inst_of, self.g_inst, self.g_maxuid, self.g_next, self.serial = {}, {}, {}, {}, 0
+
+    def step(self, dump):
+        out = []
+        by_id = {m[0]: m for m in (dump.get("mailboxes") or [])}
+        links = dump.get("links") or []
+        new_inst, fresh = {}, []
+        for l in links:
+            old = self.inst_of.get(l[0])
+            if old is not None and old[0] == l[1] and old[1] == l[3] and old[3] == l[2]:
+                new_inst[l[0]] = old
+            else:
+                self.serial += 1
+                new_inst[l[0]] = (l[1], l[3], self.serial, l[2])
+                fresh.append(l)
+        for l in fresh:
+            mb = by_id.get(l[2])
+            if mb is not None:
+                key = (mb[2], mb[3])
+                if key in self.g_maxuid and l[3] <= self.g_maxuid[key]:
+                    out.append("a message added to %s (UIDVALIDITY %d) got UID %d although UID %d had been used there" % (mb[2], mb[3], l[3], self.g_maxuid[key]))
+        self.inst_of = new_inst
+        seen = set()
+        for l in links:
+            mb = by_id.get(l[2])
+            if mb is None:
+                continue
+            key3 = (mb[2], mb[3], l[3])
+            ins = new_inst[l[0]][2]
+            if key3 in self.g_inst and self.g_inst[key3] != ins:
+                out.append("UID %d of %s (UIDVALIDITY %d) was given to a second message (message row %d)" % (l[3], mb[2], mb[3], l[1]))
+            self.g_inst[key3] = ins
+            self.g_maxuid[(mb[2], mb[3])] = max(self.g_maxuid.get((mb[2], mb[3]), 0), l[3])
+            if (l[2], l[3]) in seen:
+                out.append("two rows with UID %d in %s" % (l[3], mb[2]))
+            seen.add((l[2], l[3]))
+        for mb in (dump.get("mailboxes") or []):
+            key = (mb[2], mb[3])
+            if key in self.g_maxuid and mb[4] <= self.g_maxuid[key]:
+                out.append("%s (UIDVALIDITY %d) advertises UIDNEXT %d, UID %d exists or existed" % (mb[2], mb[3], mb[4], self.g_maxuid[key]))
+            if key in self.g_next and mb[4] < self.g_next[key]:
+                out.append("UIDNEXT of %s (UIDVALIDITY %d) went back from %d to %d" % (mb[2], mb[3], self.g_next[key], mb[4]))
+            self.g_next[key] = mb[4]
+        return out
+
+
+def run_sched2(chk, cases, stats):
+    """cases: list of (holder, slot name, sequence name or list of specs)."""
+    # where is BEGIN among the gate points of each held command on THIS tree?
+    dry = C.run_many([sched2_ops(h, None, [])[0] for h in HOLDERS2], workers=4, timeout=120)
+    ib = {}
+    for h, r in zip(HOLDERS2, dry):
+        try:
+            pts = r["obs"][-2]["points"]
+            ib[h] = (pts.index("B"), pts)
+        except Exception:
+            chk.broken_obligation("sched2: could not determine the statements of %s on this tree: %s" % (HOLDERS2[h], str(r)[-300:]), {"suite": "sched2"})
+            return
+    built = []
+    for (h, slot, seq) in cases:
+        specs = SPAM_SEQS[seq] if isinstance(seq, str) else seq
+        at = ib[h][0] - 1 + SLOTS2.index(slot)
+        built.append(sched2_ops(h, at, specs))
+    res = C.run_many([b[0] for b in built], workers=12, timeout=300)
+    terms, ok_idx = [], []
+    for n, ((h, slot, seq), (ops, mops), r) in enumerate(zip(cases, built, res)):
+        specs = SPAM_SEQS[seq] if isinstance(seq, str) else seq
+        payload = {"suite": "sched2", "holder": h, "slot": slot, "sequence": [list(x) for x in specs], "gate_points": ib[h][1]}
+        if r.get("crashed") or len(r.get("obs", [])) != len(ops) or r["obs"][-2].get("error"):
+            r = C.run_ops(ops, timeout=300)
+        if r.get("crashed") or len(r.get("obs", [])) != len(ops) or r["obs"][-2].get("error"):
+            chk.broken_obligation("sched2 scenario could not be run: %s" % str(r.get("obs", [{}])[-2:])[-300:], payload)
+            continue
+        obs = r["obs"]
+        hold = obs[-2]
+        stats["sched2"] = stats.get("sched2", 0) + 1
+        txt = "%s held at %s (gate %d of %s) while [%s] run" % (HOLDERS2[h], slot, ib[h][0] - 1 + SLOTS2.index(slot), " ".join(ib[h][1]), "; ".join(" ".join(str(y) for y in x) for x in specs))
+        ghost = GhostLog()
+        viols = ghost.step(user_store(obs[-4]))
+        for st in (hold.get("dumps") or []):
+            viols += ghost.step(user_store({"stores": st}))
+        final = user_store(obs[-1])
+        viols += ghost.step(final)
+        if viols:
+            chk.violation("%s  [schedule: %s]" % (viols[0], txt), dict(payload, all=viols[:6]))
+            stats["real"] = stats.get("real", 0) + 1
+        replies = [reply_class(tagged(hold["holder"][-1]["recv"], "h1"))]
+        reached = bool(hold.get("reached"))
+        mbs = user_store(obs[-4]).get("mailboxes") or []
+        env = C.coq_list(mops) if reached else "[]"
+        late = "[]" if reached else C.coq_list(mops)
+        mv = C.coq_list(["(%d, %s, %s, %d)" % (x[0], C.coq_str(x[2]), C.coq_z(x[3]), x[4]) for x in (final.get("mailboxes") or [])])
+        lv = C.coq_list(["(%d, %d, %d, %d, %s)" % (l[0], l[1], l[2], l[3], coq_flags(C.unlatin(l[4]).split())) for l in (final.get("links") or [])])
+        terms.append("((init5 %s), %s, %d, %s, %s, %s, %s)" % (" ".join(C.coq_z(x[3]) for x in mbs[:5]), {"move": "HMove", "uidcopy": "HUidCopy"}[h],
+                                                               0 if slot == "before_lookup" else 1, env, late, mv, lv))
+        ok_idx.append(n)
+    if not terms:
+        return
+    body = C.COQ_CASE_HEADER + "From Raven Require Import Model.Store Model.Ops Spec.UidSpec Model.UidView Model.MoveSched.\nLocal Open Scope Z_scope.\n"
+    body += "Definition cases : list (store * holder * Z * list op * list op * list mview * list lview) := [\n%s].\n" % ";\n".join(terms)
+    body += "Definition res := Eval vm_compute in map eval_sched2 cases.\nPrint res.\n"
+    rc, log = C.coq_eval_cases(PID + "_sched2", body)
+    txt = C.parse_coq_list_out(log, "res") if rc == 0 else None
+    if txt is None:
+        chk.broken_obligation("in-Coq evaluation of the C03 sched2 cases failed:\n" + log[-2000:])
+        return
+    for n, val in zip(ok_idx, re.findall(r"true|false", txt)):
+        if val != "true":
+            stats["diff"] += 1
+            if not stats.get("real"):
+                h, slot, seq = cases[n]
+                chk.broken_obligation("correspondence sched2 no longer checks: the statement-level model (Model/MoveSched.v) and the implementation differ for %s held at %s with other writers %r" % (HOLDERS2[h], slot, seq),
+                                      {"suite": "sched2", "holder": h, "slot": slot, "sequence": [list(x) for x in (SPAM_SEQS[seq] if isinstance(seq, str) else seq)]})
+
+
 def rename_inbox_family():
     """RENAME INBOX onto an EXISTING name, in every relation between the two
     mailboxes that matters for UIDs: target never used / used and emptied
@@ -864,6 +1054,13 @@ def run(chk):
             plans.append([(k, [chk.rng.choice(OTHER_KINDS) for _ in range(chk.rng.randint(1, 2))]) for k in ks])
     plans = [[(k, list(kinds)) for k, kinds in p] for p in plans]
     run_sched(chk, plans, stats)
+    cases2 = [(h, slot, seq) for h in HOLDERS2 for slot in SLOTS2 for seq in SPAM_SEQS]
+    if not quick:
+        kinds2 = [("deliver_spam",), ("append_spam",), ("uidcopy_spam", 1), ("uidcopy_spam", 2), ("junk_move", 3), ("junk_move", 4),
+                  ("expunge", 1), ("expunge", 3), ("expunge", 4), ("expunge", 5)]
+        for _ in range(60):
+            cases2.append((chk.rng.choice(list(HOLDERS2)), chk.rng.choice(SLOTS2), [chk.rng.choice(kinds2) for _ in range(chk.rng.randint(2, 5))]))
+    run_sched2(chk, cases2, stats)
     # ---- 2. random histories
     n_rand, n_clean, length = (40, 24, 22) if quick else (700, 300, 40)
     fam = rename_inbox_family()
@@ -913,6 +1110,7 @@ def run(chk):
     chk.cov["plain_copy_reachable"] = copy_ok
     chk.cov["append_schedules_run"] = stats.get("sched", 0)
     chk.cov["append_statement_points"] = SCHED_POINTS
+    chk.cov["move_copy_schedules_run"] = stats.get("sched2", 0)
     if stats.get("sched_points"):
         chk.notes.append("APPEND reached its gate points in an order other than %s: %s" % (SCHED_POINTS, sorted(stats["sched_points"])))
     chk.cov["rename_inbox_onto_existing_histories"] = len(fam) if not quick else 10
@@ -928,6 +1126,15 @@ def run(chk):
 
 def replay(path):
     d = json.load(open(path))
+    if d.get("suite") == "sched2":
+        chk = C.Check(PID, "quick", 1)
+        C.pregen_all()
+        C.coq_make()
+        stats = {"diff": 0}
+        run_sched2(chk, [(d["holder"], d["slot"], [tuple(x) for x in d["sequence"]])], stats)
+        for path, what, nofail in chk.violations:
+            print("VIOLATION:", what)
+        return 1 if chk.violations else 0
     if d.get("suite") == "sched":
         chk = C.Check(PID, "quick", 1)
         C.pregen_all()
